@@ -98,18 +98,35 @@ def row_wrappers(ctx, ld):
     ok = all([k for k, _ in s.yields] == ['identity'] and s.term == FALL for s in sigs)
     stores = [n for n in ast.walk(loop) if isinstance(n, ast.Assign) and isinstance(n.targets[0], ast.Subscript)
               and pseudo(n.targets[0].value) == var]
-    ok = ok and len(stores) == 1
+    why = 'rows are not yielded once each' if not ok else ''
+    if ok and len(stores) != 1:
+        ok, why = False, 'expected exactly one store into the row'
     if ok:
         st = stores[0]
         inner = st
-        while not isinstance(inner, ast.For):
+        while not isinstance(inner, ast.For) and inner is not loop:
             inner = inner._parent
-        k, v = [t.id for t in inner.target.elts]
-        cond = st._parent
-        ok = u(st.targets[0].slice) == k and u(st.value) == '%s.strip()' % v and isinstance(cond, ast.If) and \
-            'isinstance(%s, str)' % v in u(cond.test) and u(inner.iter) == '%s.items()' % var
-    run.check(ok, 'R12', stp.where, stp.qualname, 'r[k] = v.strip() for str values only; yield r',
-              'stripping alters something other than surrounding whitespace of string cells')
+        facts = Facts(stp, include_nested=False)
+        # the cells visited are the cells of *this* row: the inner loop iterates the current row, nothing carried over
+        if inner is loop or var not in names_in(inner.iter) or (names_in(inner.iter) - {var}):
+            ok, why = False, 'the cells considered for stripping are not taken from the current row alone (%s)' % u(inner.iter)
+        else:
+            key = u(st.targets[0].slice)
+            val = st.value
+            stripped = isinstance(val, ast.Call) and isinstance(val.func, ast.Attribute) and val.func.attr == 'strip' and not val.args
+            if not stripped:
+                ok, why = False, 'the stored value is not <cell>.strip()'
+            else:
+                cell = pseudo(val.func.value)
+                tnames = [t.id for t in ast.walk(inner.target) if isinstance(t, ast.Name)]
+                same_cell = cell in tnames or (cell and any(u(v) in ('%s[%s]' % (var, key), '%s.get(%s)' % (var, key))
+                                                             for v in facts.values_of(cell)))
+                guard = st._parent
+                is_str = isinstance(guard, ast.If) and 'isinstance(%s, str)' % cell in u(guard.test)
+                if not (same_cell and key in tnames and is_str):
+                    ok, why = False, 'the stripped value is not the string cell stored back under its own key'
+    run.check(ok, 'R12', stp.where, stp.qualname, 'for k, v in r.items(): if str: r[k] = v.strip(); yield r',
+              'stripping does not treat every string cell of every row: ' + why)
     sg = ld.methods['stringer']
     loop, var, _ = observers.single_row_loop(ctx, sg)
     ys = [y for y in ast.walk(loop) if isinstance(y, ast.Yield)]
